@@ -139,6 +139,8 @@ class Engine:
                     # payoff -> [pl, plm], dp = pl - plm // pl: fine process, plm: coarse process
 
             def simulating_one_path(it):
+                # the variates the parent process drew ahead are copied into every task: a worker draws those of its path
+                coupling_process.pre_computation(mc_paths=1, product=product)
                 return it, simulation_path()
 
             def initializer():
